@@ -1065,6 +1065,14 @@ impl Prop for C15 {
             "mkdir /root", "open /root", "mkfile /out/s1", "mkfile /root/a", "created /root/a 10 n-9000",
             "rm /root/a", "symlink /root/a /out/s1", "maxsize 0", "evict", "close",
         ]));
+        v.push(fixed("x-alias-absent-never-forgotten", &[
+            "mkdir /root/d2", "symlink /root/lin /root/d2", "open /root", "created /root/lin/late 10 n-9000",
+            "maxsize 0", "evict", "evict", "close",
+        ]));
+        v.push(fixed("x-dirlink-absent", &[
+            "mkdir /root", "mkfile /out/s1", "symlink /root/dl /out", "open /root",
+            "created /root/dl/z 10 n-9000", "maxsize 0", "evict", "accessed /root/dl/z n-1", "close",
+        ]));
         v.push(fixed("x-alias-late-file", &[
             "mkdir /root/d2", "symlink /root/lin /root/d2", "open /root", "created /root/lin/late 10 n-9000",
             "mkfile /root/d2/late", "maxsize 0", "evict", "evict", "close",
